@@ -4,6 +4,9 @@ import (
 	"bytes"
 	"context"
 	"fmt"
+	"os"
+	"path/filepath"
+	"reflect"
 	"sort"
 	"strings"
 	"testing"
@@ -49,6 +52,15 @@ type StoreCase struct {
 	// the store runs its own poller (never ticked; polls are explicit Refresh calls), so that Close
 	// flushes the cache; histories may then make single cache writes fail (op "failwrite")
 	Poller bool `json:"poller,omitempty"`
+	// Wire: the store reaches the service through the real setec.Client (HTTP encoding, status handling)
+	Wire bool `json:"wire,omitempty"`
+	// FileCache: every cache document goes through a real setec.FileCache; the cache "holds" what is read back
+	FileCache bool `json:"file_cache,omitempty"`
+	// NoLookup: the store is configured with AllowLookup false (lookups of unknown names are refused;
+	// undeclared secrets the start-up cache supplies are known all the same)
+	NoLookup bool `json:"no_lookup,omitempty"`
+	// StartFail: at every (re)start the first request for this name fails once (NewStore retries)
+	StartFail string `json:"start_fail,omitempty"`
 	Declared []string    `json:"declared"`
 	Seeds    []CacheSeed `json:"seeds"` // undeclared entries of the start-up cache
 	Ops      []SOp       `json:"ops"`
@@ -59,6 +71,9 @@ type mname struct {
 	last     int64
 	handle   bool
 	ver      uint32
+	// a poll ran while this name was droppable and no cache document was written afterwards: the
+	// store may or may not have dropped it (either is allowed); the next look at it will tell
+	maybeGone bool
 }
 
 const clockStart = int64(1_700_000_000)
@@ -116,6 +131,19 @@ func (r *storeRun) viol(clause, format string, args ...any) *h.Violation {
 	return h.V(clause, format, args...)
 }
 
+// secret is Store.Secret; with lookups disabled an unknown name makes Secret panic (documented), which
+// is reported here like the nil that a lookup-enabled store returns.
+func (r *storeRun) secret(name string) (hd setec.Secret) {
+	if r.c.NoLookup {
+		defer func() {
+			if recover() != nil {
+				hd = nil
+			}
+		}()
+	}
+	return r.st.Secret(name)
+}
+
 func (r *storeRun) mayExpire(m *mname) bool {
 	now := r.clock.Unix()
 	return !m.declared && r.c.Age > 0 && (now-m.last)*1000+int64(r.c.FracMs) > int64(r.c.Age)*1000+int64(r.c.AgeMs) && !m.handle
@@ -129,14 +157,25 @@ func (r *storeRun) expiryAge() time.Duration {
 }
 
 func (r *storeRun) start(declared []string) *h.Violation {
+	if r.c.StartFail != "" {
+		for _, d := range declared {
+			if d == r.c.StartFail && r.model[d] == nil {
+				r.svc.SetScript(d, []fake.Beh{{Kind: "err"}})
+				r.info.Class("a-declared-secret-fetched-at-the-second-attempt")
+			}
+		}
+	}
 	cfg := setec.StoreConfig{
-		Client: r.svc, Secrets: append([]string{}, declared...), AllowLookup: true, Cache: r.cache,
+		Client: storeClient(r.svc, r.c.Wire), Secrets: append([]string{}, declared...), AllowLookup: !r.c.NoLookup, Cache: r.cache,
 		PollInterval: -1, ExpiryAge: r.expiryAge(), TimeNow: r.clock.Now, Logf: nolog,
 	}
 	if r.c.Poller {
 		cfg.PollInterval, cfg.PollTicker = 0, newChanTicker()
 	}
 	st, err := setec.NewStore(context.Background(), cfg)
+	if r.c.StartFail != "" {
+		r.svc.SetScript(r.c.StartFail, nil)
+	}
 	if err != nil {
 		return h.V("harness", "NewStore: %v", err)
 	}
@@ -171,6 +210,13 @@ func (r *storeRun) docCheck(step int, what string, atPoll bool, window map[strin
 		m := r.model[n]
 		may := r.mayExpire(m)
 		e, in := doc[n]
+		if !in && m.maybeGone {
+			delete(r.model, n) // dropped at the earlier poll that left no document
+			continue
+		}
+		if in {
+			m.maybeGone = false
+		}
 		if !in {
 			if !atPoll {
 				if v := r.viol("dropped-only-at-a-poll", "step %d %s: %q vanished from the cache outside a poll", step, what, n); v != nil {
@@ -246,6 +292,24 @@ func (r *storeRun) run() *h.Violation {
 		init = model.EncodeCache(seed)
 	}
 	r.cache = fake.NewCache(init)
+	if c.FileCache {
+		dir, err := os.MkdirTemp(os.Getenv("VERIF_FAST_SCRATCH"), "storehist-")
+		if err != nil {
+			return h.V("harness", "MkdirTemp: %v", err)
+		}
+		defer os.RemoveAll(dir)
+		fc, err := setec.NewFileCache(filepath.Join(dir, "cache", "secrets.json"))
+		if err != nil {
+			return h.V("harness", "NewFileCache: %v", err)
+		}
+		if len(init) > 0 {
+			if err := fc.Write(init); err != nil {
+				return h.V("harness", "FileCache.Write: %v", err)
+			}
+		}
+		r.cache.Backing = fc
+		r.info.Class("documents-go-through-a-real-file-cache")
+	}
 	if v := r.start(c.Declared); v != nil {
 		return v
 	}
@@ -268,7 +332,13 @@ func (r *storeRun) run() *h.Violation {
 			}
 			hd := r.handles[o.Name]
 			if hd == nil {
-				hd = r.st.Secret(o.Name)
+				hd = r.secret(o.Name)
+				if hd == nil && m.maybeGone {
+					delete(r.model, o.Name) // it was dropped at that poll, as it might be
+					r.info.Class("drop-learned-without-a-cache-document")
+					continue
+				}
+				m.maybeGone = false
 				if hd == nil {
 					return r.viol("known-after-restart", "step %d: Secret(%q) is nil although the cache lists it", i, o.Name)
 				}
@@ -285,12 +355,71 @@ func (r *storeRun) run() *h.Violation {
 			r.info.Class("read")
 		case "handle":
 			if m := r.model[o.Name]; m != nil && r.handles[o.Name] == nil {
-				hd := r.st.Secret(o.Name)
+				hd := r.secret(o.Name)
+				if hd == nil && m.maybeGone {
+					delete(r.model, o.Name)
+					r.info.Class("drop-learned-without-a-cache-document")
+					continue
+				}
+				m.maybeGone = false
 				if hd == nil {
 					return r.viol("known-after-restart", "step %d: Secret(%q) is nil although the cache lists it", i, o.Name)
 				}
 				r.handles[o.Name] = hd
 				m.handle = true
+			}
+		case "apply":
+			// the program fills a struct field from the secret (Fields.Apply): a read like any other.
+			// Whether that also pins the secret like a handle is not said; the model does not assume it.
+			typ := reflect.StructOf([]reflect.StructField{{Name: "V", Type: reflect.TypeOf([]byte(nil)), Tag: reflect.StructTag(fmt.Sprintf(`setec:"%s"`, o.Name))}})
+			tgt := reflect.New(typ)
+			fs, err := setec.ParseFields(tgt.Interface(), "")
+			if err != nil {
+				return h.V("harness", "ParseFields: %v", err)
+			}
+			w0 := r.cache.NumWrites()
+			lq0 := r.svc.LogLen()
+			err = fs.Apply(context.Background(), r.st)
+			asked := r.svc.LogLen() > lq0
+			m := r.model[o.Name]
+			if err != nil {
+				if r.c.NoLookup && (m == nil || m.maybeGone) {
+					continue
+				}
+				return h.V("harness", "step %d Apply %q: %v", i, o.Name, err)
+			}
+			if m != nil && m.maybeGone {
+				if asked {
+					delete(r.model, o.Name)
+					m = nil
+				} else {
+					m.maybeGone = false
+				}
+			}
+			if m == nil {
+				v, _, _ := r.svc.Active(o.Name)
+				m = &mname{ver: v}
+				r.model[o.Name] = m
+			}
+			m.last = r.clock.Unix()
+			if got := tgt.Elem().Field(0).Bytes(); !bytes.Equal(got, histValue(o.Name, m.ver)) {
+				if v := r.viol("read-yields-served-value", "step %d: Apply filled the field for %q with %q, want version %d = %q", i, o.Name, got, m.ver, histValue(o.Name, m.ver)); v != nil {
+					return v
+				}
+			}
+			r.info.Class("read-through-fields-apply")
+			if r.cache.NumWrites() > w0 {
+				// a lookup's flush happens before the field is filled (the read)
+				save := m.last
+				if doc, err := model.DecodeCacheStrict(r.cache.Data()); err == nil {
+					if e, ok := doc[o.Name]; ok {
+						m.last = e.LastAccess
+					}
+				}
+				if v := r.docCheck(i, what, false, nil); v != nil {
+					return v
+				}
+				m.last = save
 			}
 		case "failwrite":
 			// the next write to the cache device fails (once)
@@ -301,9 +430,25 @@ func (r *storeRun) run() *h.Violation {
 		case "lookup":
 			w0 := r.cache.NumWrites()
 			wc0 := r.cache.NumWriteCalls()
+			lq0 := r.svc.LogLen()
 			hd, err := r.st.LookupSecret(context.Background(), o.Name)
+			if r.c.NoLookup && err != nil {
+				// refused: fine if the store does not know the name (C16 judges the rest)
+				if m := r.model[o.Name]; m == nil || m.maybeGone {
+					continue
+				}
+				return r.viol("known-after-restart", "step %d: LookupSecret(%q) fails (%v) although the store knows the secret", i, o.Name, err)
+			}
 			if err != nil || hd == nil {
 				return h.V("harness", "step %d lookup %q: %v", i, o.Name, err)
+			}
+			if m := r.model[o.Name]; m != nil && m.maybeGone {
+				if r.svc.LogLen() > lq0 {
+					delete(r.model, o.Name) // the store asked the service: it had dropped the name at that poll
+					r.info.Class("drop-learned-without-a-cache-document")
+				} else {
+					m.maybeGone = false
+				}
 			}
 			if r.model[o.Name] == nil {
 				v, _, _ := r.svc.Active(o.Name)
@@ -324,9 +469,24 @@ func (r *storeRun) run() *h.Violation {
 			}
 		case "watch":
 			w0 := r.cache.NumWrites()
+			lq0 := r.svc.LogLen()
 			_, err := setec.NewUpdater(context.Background(), r.st, o.Name, func(b []byte) (string, error) { return string(b), nil })
+			if r.c.NoLookup && err != nil {
+				if m := r.model[o.Name]; m == nil || m.maybeGone {
+					continue
+				}
+				return r.viol("known-after-restart", "step %d: NewUpdater(%q) fails (%v) although the store knows the secret", i, o.Name, err)
+			}
 			if err != nil {
 				return h.V("harness", "step %d NewUpdater %q: %v", i, o.Name, err)
+			}
+			if m := r.model[o.Name]; m != nil && m.maybeGone {
+				if r.svc.LogLen() > lq0 {
+					delete(r.model, o.Name)
+					r.info.Class("drop-learned-without-a-cache-document")
+				} else {
+					m.maybeGone = false
+				}
 			}
 			if r.model[o.Name] == nil {
 				v, _, _ := r.svc.Active(o.Name)
@@ -398,7 +558,7 @@ func (r *storeRun) run() *h.Violation {
 						// from another goroutine under a watchdog (a store that holds its lock across
 						// the request would dead-lock here; that is C12's business, so just stop)
 						ch := make(chan setec.Secret, 1)
-						go func() { ch <- r.st.Secret(o.MidHandle) }()
+						go func() { ch <- r.secret(o.MidHandle) }()
 						var hd setec.Secret
 						select {
 						case hd = <-ch:
@@ -406,6 +566,11 @@ func (r *storeRun) run() *h.Violation {
 							r.foreign = true
 							return
 						}
+						if hd == nil && m.maybeGone {
+							delete(r.model, o.MidHandle)
+							return
+						}
+						m.maybeGone = false
 						if hd == nil {
 							midViolation = r.viol("known-after-restart", "step %d: Secret(%q) is nil during a poll although the store knows it", i, o.MidHandle)
 							return
@@ -437,8 +602,17 @@ func (r *storeRun) run() *h.Violation {
 					}
 				}
 			}
+			wcBefore := r.cache.NumWriteCalls()
 			err := r.st.Refresh(context.Background())
 			r.svc.OnRequest = nil
+			if err == nil && r.cache.NumWriteCalls() > wcBefore && r.cache.NumWrites() == w0 {
+				// The poll says it succeeded, yet the one cache write it attempted failed (whether a poll
+				// reports that is not for C11/C19 to say): what it installed or dropped cannot be seen
+				// anywhere, so the history is not judged any further.
+				r.info.Class("poll-reported-success-although-its-cache-write-failed")
+				r.foreign = true
+				return nil
+			}
 			if midViolation != nil {
 				return midViolation
 			}
@@ -487,6 +661,12 @@ func (r *storeRun) run() *h.Violation {
 					// and whatever it dropped must have been droppable
 					if v := r.docCheck(i, what, true, nil); v != nil {
 						return v
+					}
+				} else {
+					for _, m := range r.model {
+						if r.mayExpire(m) {
+							m.maybeGone = true
+						}
 					}
 				}
 				continue
@@ -601,9 +781,15 @@ func genStoreCase(rt *rapid.T, prop string) StoreCase {
 			})
 		}
 	}
-	kinds := []string{"read", "read", "handle", "lookup", "lookup", "watch", "poll", "poll", "poll", "advance", "advance", "restart", "set", "set"}
+	c.Wire = rapid.IntRange(0, 3).Draw(rt, "wire") == 0
+	c.FileCache = rapid.IntRange(0, 3).Draw(rt, "filecache") == 0
+	c.NoLookup = rapid.IntRange(0, 5).Draw(rt, "nolookup") == 0
+	if rapid.IntRange(0, 3).Draw(rt, "startfail") == 0 {
+		c.StartFail = rapid.SampledFrom([]string{"d1", "d2"}).Draw(rt, "startfailname")
+	}
+	kinds := []string{"read", "read", "handle", "lookup", "lookup", "watch", "apply", "poll", "poll", "poll", "advance", "advance", "restart", "set", "set"}
 	if prop == "C19" {
-		kinds = []string{"read", "read", "handle", "lookup", "lookup", "lookup", "watch", "poll", "poll", "poll", "advance", "advance", "advance", "restart", "set"}
+		kinds = []string{"read", "read", "handle", "lookup", "lookup", "lookup", "watch", "apply", "apply", "poll", "poll", "poll", "advance", "advance", "advance", "restart", "set"}
 		if c.Poller = rapid.Bool().Draw(rt, "poller"); c.Poller {
 			kinds = append(kinds, "restart", "failwrite")
 		}
@@ -645,6 +831,21 @@ func genStoreCase(rt *rapid.T, prop string) StoreCase {
 		}
 		return o
 	}), h.LenBias(rt, 1, 30), 30).Draw(rt, "ops")
+	// a service that keeps failing for one secret: some failing polls are repeated 2-4 times in a row
+	// (the same names fail each time), followed by a poll during which the service is healthy again
+	var ops []SOp
+	for _, o := range c.Ops {
+		ops = append(ops, o)
+		if o.Kind == "poll" && len(o.Fail) > 0 && len(ops) < 40 {
+			if k := rapid.SampledFrom([]int{0, 0, 1, 2, 3}).Draw(rt, "failrun"); k > 0 {
+				for j := 0; j < k; j++ {
+					ops = append(ops, SOp{Kind: "poll", Fail: o.Fail, FailKind: o.FailKind})
+				}
+				ops = append(ops, SOp{Kind: "set", Name: o.Fail[0]}, SOp{Kind: "poll"})
+			}
+		}
+	}
+	c.Ops = ops
 	return c
 }
 
